@@ -64,7 +64,7 @@ func drawSelection(rt *rapid.T) selection {
 func drawCLICase(rt *rapid.T) *cliCase {
 	ws, meta := gen.DrawWorkspace(rt, gen.WSOpts{MaxPkgs: 3, Tests: true, GeneratedFiles: true, Main: true, Kernels: e2eKernels()})
 	cc := &cliCase{WS: ws, Meta: meta}
-	cc.Layout = pickT(rt, "layout", []string{"mod-root", "mod-root", "mod-sub", "gopath-inside", "nested-repeat", "nested-repeat"})
+	cc.Layout = pickT(rt, "layout", []string{"mod-root", "mod-root", "mod-sub", "gopath-inside", "nested-repeat", "nested-repeat", "gopath-repeat", "gopath-repeat"})
 	cc.Binary = pickT(rt, "binary", []string{"go-critic", "gocritic"})
 	cc.ExitCode = pickInt(rt, "exitCode", []int{1, 1, 0, 2, 3, 42, 125, 255})
 	cc.Shorter = rapid.IntRange(0, 3).Draw(rt, "shorter") != 0
@@ -98,6 +98,17 @@ func cliLayout(env *gen.Env, cc *cliCase, id int) (ws *e2e.Workspace, root, cwd 
 		root = filepath.Join(gopath, "src", "verifws")
 		cwd = root
 		targets = []string{"./..."}
+	case "gopath-repeat":
+		// the GOPATH directory string occurs a second time inside the path of the workspace, and the
+		// files of sibling packages are not below the working directory ($GOPATH form is printed)
+		gopath = filepath.Join(base, "gp")
+		root = filepath.Join(gopath, "src", strings.TrimPrefix(gopath, "/"), "ws")
+		cwd = filepath.Join(root, first)
+		targets = []string{"./..."}
+		for _, d := range dirs[1:] {
+			rel, _ := filepath.Rel(first, d)
+			targets = append(targets, rel)
+		}
 	case "nested-repeat":
 		// a package whose absolute path contains the working directory's path in the middle
 		root = filepath.Join(base, "ws")
@@ -141,6 +152,9 @@ func checkC16(t core.TB, rec *core.Recorder, env *gen.Env, cc *cliCase) {
 	base := filepath.Dir(root)
 	if cc.Layout == "gopath-inside" {
 		base = filepath.Dir(filepath.Dir(filepath.Dir(root)))
+	}
+	if cc.Layout == "gopath-repeat" {
+		base = filepath.Dir(gopath)
 	}
 	defer os.RemoveAll(base)
 	// meta follows moved files
@@ -244,6 +258,14 @@ func checkC16(t core.TB, rec *core.Recorder, env *gen.Env, cc *cliCase) {
 			trimLines(missing, 5), trimLines(extra, 5)))
 	}
 	nontrivial := len(got) > 0 && (cc.Layout != "mod-root" || cc.Meta.OddHeader)
+	if cc.Layout == "gopath-repeat" {
+		for _, l := range got {
+			if strings.HasPrefix(l.Loc, "$GOPATH/") {
+				rec.Count("gopath-repeat:$GOPATH-form-printed")
+				break
+			}
+		}
+	}
 	if nontrivial {
 		rec.Nontrivial(fmt.Sprint(ws.Files), cc.Layout, fmt.Sprint(cc.Cfg), fmt.Sprint(cc.ExitCode, cc.Shorter))
 		rec.Sample("nontrivial", 3, map[string]any{"layout": cc.Layout, "cmd": res.Cmd, "cwd": cwd, "lines": len(got), "first_line": firstLoc(got), "exit": res.Exit})
